@@ -27,7 +27,10 @@ Notation memN := IRInst.memN.
 
 (* ------------------------------------------------------------------ data *)
 Record nattr := NA { el : list N; ar : bool; ch : Z; hc : Z; am : option Z }.
-Record eattr := EA { eo : Z; es : option Z }.
+(* et = the "after" order of an ITS / reaction-centre edge: [Some b] means order = the tuple (eo, b) (round 3);
+   [EA o s] builds a scalar-order edge as before *)
+Record eattr := EA3 { eo : Z; es : option Z; et : option Z }.
+Definition EA (o : Z) (s : option Z) : eattr := EA3 o s None.
 Definition graph := lgraph nattr eattr.
 
 Definition lit (s : string) : str := map N_of_ascii (list_ascii_of_string s).
@@ -98,10 +101,13 @@ Definition sep2 : str := lit ", ".
 Definition node_item (p : N * nattr) : str :=
   let a := snd p in
   decN (fst p) ++ lit ":" ++ lit "(" ++ pyrepr (el a) ++ sep2 ++ decZ (ch a) ++ sep2 ++ pybool (ar a) ++ sep2 ++ decZ (hc a) ++ lit ")".
+(* str()/repr() of the order value: a float, or a tuple of two floats *)
+Definition ord_str (a : eattr) : str :=
+  match et a with None => fl (eo a) | Some b => lit "(" ++ fl (eo a) ++ sep2 ++ fl b ++ lit ")" end.
 Definition edge_item (e : N * N * eattr) : str :=
   let '(u, v, a) := e in
   let pr := lit "(" ++ decN (N.min u v) ++ sep2 ++ decN (N.max u v) ++ lit ")" in
-  pr ++ lit ":" ++ lit "(" ++ pr ++ sep2 ++ fl (eo a) ++ sep2 ++ (match es a with Some s => fl s | None => lit "0" end) ++ lit ")".
+  pr ++ lit ":" ++ lit "(" ++ pr ++ sep2 ++ ord_str a ++ sep2 ++ (match es a with Some s => fl s | None => lit "0" end) ++ lit ")".
 Definition ser_nodes (g : graph) : list (N * nattr) := sort_by nkey_id (gnodes g).
 Definition ser_edges (g : graph) : list (N * N * eattr) := sort_by ekey (gedges g).
 Definition serialise (g : graph) : str :=
@@ -113,7 +119,12 @@ Definition acode (g : graph) (v : N) : list Z :=
   let a := attr_of g v in enc_str (el a) ++ [b2z (ar a); ch a; hc a].
 (* per attribute (present?, value or 0) — repair of round 2: a missing standard_order stays comparable; on graphs whose
    edges all carry or all lack the attribute the order of the codes is unchanged *)
-Definition ecode (a : eattr) : list Z := [eo a; (match es a with Some _ => 1 | None => 0 end)%Z; std0 a].
+(* a tuple-valued order enters the refinement signature SORTED (tuple(sorted(round(float(x), 3) ...))) *)
+Definition ecode (a : eattr) : list Z :=
+  match et a with
+  | None => [eo a; (match es a with Some _ => 1 | None => 0 end)%Z; std0 a]
+  | Some b => [Z.min (eo a) b; Z.max (eo a) b; (match es a with Some _ => 1 | None => 0 end)%Z; std0 a]
+  end.
 
 (* _node_signature: (node attrs, degree, neighbours per cell, sorted multiset of edge attrs) *)
 Definition sigN (g : graph) (P : partition) (v : N) : list Z :=
@@ -137,7 +148,7 @@ Definition node_str (g : graph) (v : N) : str :=
 Definition node_seg (g : graph) (p : list N) : str := join 124%N (map (node_str g) p).
 Definition edge_bit (g : graph) (ab : N * N) : str :=
   match adj g (fst ab) (snd ab) with
-  | Some x => lit "1:" ++ fl (eo x) ++ lit ":" ++ (match es x with Some s => fl s | None => [] end)
+  | Some x => lit "1:" ++ ord_str x ++ lit ":" ++ (match es x with Some s => fl s | None => [] end)
   | None => lit "0::"
   end.
 Fixpoint pairs (l : list N) : list (N * N) :=
@@ -206,7 +217,7 @@ Definition tstrN (s : str) : tok := tlist tN s.
 Definition tZ (z : Z) : tok := I z.
 Definition tgraph (g : graph) : tok :=
   L [ tset (fun p : N * nattr => let a := snd p in L [tN (fst p); tstrN (el a); tbool (ar a); tZ (ch a); tZ (hc a); topt tZ (am a)]) (gnodes g);
-      tset (fun e : N * N * eattr => let '(u, v, a) := e in L [tN (N.min u v); tN (N.max u v); tZ (eo a); topt tZ (es a)]) (gedges g) ].
+      tset (fun e : N * N * eattr => let '(u, v, a) := e in L [tN (N.min u v); tN (N.max u v); tZ (eo a); topt tZ (es a); topt tZ (et a)]) (gedges g) ].
 Definition tpart (P : partition) : tok := tlist (tlist tN) P.
 
 Definition run_generic (g : graph) : tok :=
@@ -282,3 +293,11 @@ Definition run_case3 (items : list (graph * list (N * Z) * list (N * Z))) (other
   | [] => L [run_case2 items others; L []]
   | (g, _, _) :: _ => L [run_case2 items others; run_rule_vo g rule_hs]
   end.
+
+(* NautyCanonicalizer.graph_signature: the digest of the label of the canonical graph read in the order 1..N *)
+Definition graph_sig_label (g : graph) : str := nlabel (canon_nauty g) (sorted_ids (canon_nauty g)).
+Definition run_case4 (items : list (graph * list (N * Z) * list (N * Z))) (others rule_hs : list graph) : tok :=
+  L [run_case3 items others rule_hs;
+     tlist (fun it : graph * list (N * Z) * list (N * Z) => tstrN (graph_sig_label (fst (fst it)))) items;
+     tlist tnat (pattern [] (map (fun it : graph * list (N * Z) * list (N * Z) => graph_sig_label (fst (fst it))) items
+                             ++ map graph_sig_label others))].
